@@ -358,6 +358,15 @@ example :
       (List.range 16).filter (bit (movemask v)) = [0, 5, 15] ∧
       willHaveNonZero v = true := by decide
 
+/-- The known oddity (DESIGN O1), concretely: `all_zeros_except_least_significant(8)` is
+`!0x3FF`; and-ing it with the all-lanes mask clears lanes 0 and 1 only, lanes 2..7 survive
+although they are `< 8`. (Harmless for the callers, which only need lanes `>= n` kept and no
+lane invented; see `Lawful.allExceptLS_spec`.) -/
+example :
+    (allExceptLS 8 {}).val? = some 0xFFFFFFFFFFFFFC00 ∧
+      (List.range 16).filter (bit ((0x8888888888888888 : UInt64) &&& 0xFFFFFFFFFFFFFC00)) =
+        [2, 3, 4, 5, 6, 7, 8, 9, 10, 11, 12, 13, 14, 15] := by decide
+
 #print axioms lawful
 #print axioms allExceptLS_exact
 #print axioms wf_iff_and_mask
